@@ -1389,6 +1389,7 @@ class Generator:
         self.lost_aids = []
         self.trait_cover = {}       # (file, 'impl T for X') -> names of the fns extracted from that trait impl
         self.trait_cover_ok = {}    # fns of a trait impl deliberately left out (//@uncovered)
+        self.implicit_ok = set()    # (file, trait, type) of Drop / Deref impls the template knows about (//@implicit)
         self.canary = canary
         self.canaries = []       # (canary id, item id, where)
         self.repo = repo
@@ -1526,6 +1527,10 @@ class Generator:
                     j += 1
                 self.fragment(kv, hdr)
                 i = j + 1
+            elif s.startswith("//@implicit "):
+                kv = parse_kv(s[len("//@implicit "):])
+                self.implicit_ok.add((kv["file"], kv["trait"], kv["type"]))
+                i += 1
             elif s.startswith("//@uncovered "):
                 kv = parse_kv(s[len("//@uncovered "):])
                 self.trait_cover_ok.setdefault((kv["file"], kv["path"]), set()).update(x.strip() for x in kv["fns"].split(","))
@@ -1561,6 +1566,26 @@ class Generator:
             if missing:
                 raise ExtractError(f"{file}: `{impl_part}` has method(s) not under contract: {', '.join(sorted(missing))} "
                                    f"(every method of a trait impl under contract must be; a new one overrides a trait default)")
+
+    def check_implicit_impls(self):
+        """`impl Drop for X` (likewise Deref / DerefMut) runs implicitly - when a value goes out of scope, at every `*x` -
+        without being called from any function a contract mentions.  The files under contract have none today; one that
+        appears (seed C19g: a Drop for the smol write half that shuts the shared socket down) makes the unit UNDECIDED."""
+        for file, (text, toks) in self._src_cache.items():
+            code_toks = [t for t in toks if t.kind not in ("ws", "lcomment", "bcomment")]
+            for k, t in enumerate(code_toks):
+                if t.kind == "ident" and t.text == "impl":
+                    hdr = []
+                    j = k + 1
+                    while j < len(code_toks) and code_toks[j].text not in ("{", ";") and j < k + 60:
+                        hdr.append(code_toks[j].text)
+                        j += 1
+                    for tr in ("Drop", "Deref", "DerefMut"):
+                        if tr in hdr and "for" in hdr and hdr.index(tr) < len(hdr) - 1 and hdr[hdr.index(tr) + 1] == "for":
+                            who = " ".join(hdr[hdr.index("for") + 1:])[:60]
+                            if (file, tr, who.split("<")[0].strip()) not in self.implicit_ok:
+                                raise ExtractError(f"{file}:{t.line}: `impl {tr} for {who}` is not under contract "
+                                                   f"(it runs implicitly; no contract of this unit accounts for it)")
 
     def emit_impl_header(self, kv):
         file = kv["file"]
@@ -1668,6 +1693,10 @@ class Generator:
                     if m:
                         return int(m.group(1)) > len(loops)
                     if w.startswith("before ") or w.startswith("after "):
+                        if re.search(r'\s#last(\s+opt)?$', w):
+                            m = re.match(r'\S+\s+"((?:[^"\\]|\\.)*)"', w)
+                            a_s = m.group(1).replace('\\"', '"').replace("\\\\", "\\")
+                            return len([x for x in find_pattern(pieces, a_s) if x[3][x[0]] >= body_open]) == 0
                         m = re.match(r'\S+\s+"((?:[^"\\]|\\.)*)"(?:\s+#(\d+)of(\d+))?(\s+opt)?$', w)
                         if not m or m.group(4):
                             return False
@@ -1716,12 +1745,17 @@ class Generator:
                 elif w.startswith("before ") or w.startswith("after "):
                     pos, _, anchor = w.partition(" ")
                     anchor = anchor.strip()
+                    want_last = bool(re.search(r'\s#last(\s+opt)?$', anchor))
+                    if want_last:
+                        anchor = re.sub(r'\s#last', '', anchor)
                     m = re.match(r'"((?:[^"\\]|\\.)*)"(?:\s+#(\d+)of(\d+))?(?:\s+opt)?$', anchor)
                     if not m:
                         raise ExtractError(f"{iid}: bad anchor {anchor}")
                     optional = anchor.endswith(" opt")
                     a_s = m.group(1).replace('\\"', '"').replace("\\\\", "\\")
                     ms = [x for x in find_pattern(pieces, a_s) if x[3][x[0]] >= body_open]
+                    if want_last and ms:
+                        ms = [ms[-1]]       # `#last`: the last occurrence, however many there are (e.g. the tail expression)
                     if m.group(2):
                         # `#KofN`: the K-th of exactly N occurrences
                         if len(ms) != int(m.group(3)):
@@ -2076,6 +2110,7 @@ def generate(repo, template, out_rs, out_map, canary=False, lenient=False):
     g = Generator(repo, template, canary=canary, lenient=lenient)
     g.run()
     g.check_trait_impl_coverage()
+    g.check_implicit_impls()
     text, linemap = g.result()
     os.makedirs(os.path.dirname(out_rs), exist_ok=True)
     open(out_rs, "w").write(text)
